@@ -76,3 +76,26 @@ func VerifDequant(q, dqy1DC, dqy2DC, dqy2AC, dquvDC, dquvAC int32) [6]uint16 {
 	r[5] = dequantTableAC[clip(q+dquvAC, 0, 127)]
 	return r
 }
+
+// VerifFilterParams runs the reference decoder's computeFilterParams for the given header values and
+// returns, per segment and per (outer,inner), level/ilevel/hlevel/inner.
+func VerifFilterParams(level int8, sharpness uint8, useLFDelta bool, ref0, mode0 int8, useSegment, relative bool, segStrength [4]int8) (out [4][2][4]int) {
+	d := &Decoder{}
+	d.frameHeader.KeyFrame = true
+	d.filterHeader.level, d.filterHeader.sharpness, d.filterHeader.useLFDelta = level, sharpness, useLFDelta
+	d.filterHeader.refLFDelta[0], d.filterHeader.modeLFDelta[0] = ref0, mode0
+	d.segmentHeader.useSegment, d.segmentHeader.relativeDelta = useSegment, relative
+	d.segmentHeader.filterStrength = segStrength
+	d.computeFilterParams()
+	for i := range d.filterParams {
+		for j := range d.filterParams[i] {
+			p := d.filterParams[i][j]
+			in := 0
+			if p.inner {
+				in = 1
+			}
+			out[i][j] = [4]int{int(p.level), int(p.ilevel), int(p.hlevel), in}
+		}
+	}
+	return
+}
